@@ -17,7 +17,8 @@
 (*                              prog, sender from; the handler saw t = now *)
 (*   op     m out               HOp(m, out)                                *)
 (*   ret    res t               DReturn with result = res and now = t      *)
-(*   end                        the run is over; the simulation is idle    *)
+(*   drop   counters            the simulation was dropped (C19 accounting)*)
+(*   end                        the run is over                            *)
 (* Unlogged (silent) actions, inferred by TLC: Pull, SkipSameSync, HTake,  *)
 (* HSkip, Quiesce, Abort (and DoSync when the reset event says that        *)
 (* synchronize calls were projected away).                                 *)
@@ -34,9 +35,10 @@ VARIABLES
     l,       \* index of the next event to consume
     boot,    \* "sync" (waiting for the init synchronisation), "init", "done"
     inited,  \* models whose init was logged
-    syncSilent \* TRUE: synchronize calls are not in the trace (projection for properties other than C18)
+    syncSilent, \* TRUE: synchronize calls are not in the trace (projection for properties other than C18)
+    mt         \* TRUE: the run used the thread pool (a key re-check may then precede its logged handler start)
 
-tvars == <<vars, l, boot, inited, syncSilent>>
+tvars == <<vars, l, boot, inited, syncSilent, mt>>
 
 Ev == Rec[l]
 
@@ -52,6 +54,7 @@ TraceInit ==
     /\ boot = "reset"
     /\ inited = {}
     /\ syncSilent = FALSE
+    /\ mt = FALSE
     /\ TLCSet(1, 0)
 
 (* The fields of the state that Init constrains, re-initialised. *)
@@ -64,10 +67,11 @@ Reset ==
     /\ mbox' = [m \in Models |-> EmptyBox]
     /\ running' = [m \in Models |-> NoHandler]
     /\ blocked' = {} /\ orphan' = 0 /\ pendErr' = {} /\ result' = ROk
-    /\ synced' = <<0>> /\ fired' = <<>> /\ sched' = {} /\ cancelPos' = <<>>
+    /\ synced' = <<0>> /\ fired' = [m \in Models |-> <<>>] /\ sched' = {} /\ cancelPos' = <<>>
     /\ termAt' = NotTerminated
     /\ boot' = "sync" /\ inited' = {}
     /\ syncSilent' = Ev.ss
+    /\ mt' = (Ev.threads > 1)
 
 (* SimInit::init synchronises on the start time before any init code runs. *)
 InitSync ==
@@ -75,7 +79,7 @@ InitSync ==
     /\ boot = "sync"
     /\ Ev.t = 0
     /\ boot' = "init"
-    /\ UNCHANGED <<vars, inited, syncSilent>>
+    /\ UNCHANGED <<vars, inited, syncSilent, mt>>
 
 ModelInit ==
     /\ IsEvent("init")
@@ -83,7 +87,7 @@ ModelInit ==
     /\ Ev.m \in Models \ inited
     /\ inited' = inited \cup {Ev.m}
     /\ boot' = IF inited' = Models THEN "done" ELSE "init"
-    /\ UNCHANGED <<vars, syncSilent>>
+    /\ UNCHANGED <<vars, syncSilent, mt>>
 
 Booted == boot = "done"
 
@@ -95,14 +99,14 @@ TCmd ==
          [] Ev.c = "step"   -> DStep
          [] Ev.c = "step_until" -> DStepUntil(Ev.abs, Ev.d)
          [] Ev.c = "process" -> DProcess(Ev.kind, Ev.target, Ev.prog)
-    /\ UNCHANGED <<boot, inited, syncSilent>>
+    /\ UNCHANGED <<boot, inited, syncSilent, mt>>
 
 TSync ==
     /\ IsEvent("sync")
     /\ Booted
     /\ Wild("t") \/ Ev.t = now
     /\ DoSync(Ev.lag)
-    /\ UNCHANGED <<boot, inited, syncSilent>>
+    /\ UNCHANGED <<boot, inited, syncSilent, mt>>
 
 TBegin ==
     /\ IsEvent("begin")
@@ -113,14 +117,14 @@ TBegin ==
        \/ /\ HTakeStart(Ev.m, Ev.from)
           /\ Head(mbox[Ev.m][Ev.from]).prog = Ev.prog
     /\ Wild("t") \/ Ev.t = now
-    /\ UNCHANGED <<boot, inited, syncSilent>>
+    /\ UNCHANGED <<boot, inited, syncSilent, mt>>
 
 TOp ==
     /\ IsEvent("op")
     /\ Booted
     /\ Ev.m \in Models
     /\ HOp(Ev.m, Ev.out)
-    /\ UNCHANGED <<boot, inited, syncSilent>>
+    /\ UNCHANGED <<boot, inited, syncSilent, mt>>
 
 ResMatches(logged, res) ==
     \/ Wild("res")
@@ -135,13 +139,31 @@ TRet ==
     /\ DReturn
     /\ ResMatches(Ev.res, result)
     /\ Wild("t") \/ Ev.t = now
-    /\ UNCHANGED <<boot, inited, syncSilent>>
+    /\ UNCHANGED <<boot, inited, syncSilent, mt>>
+
+(* C19: the simulation (with its handles) is dropped when it is at rest: every model, message   *)
+(* and handler future created during the run has been released exactly once, the worker threads *)
+(* are gone and no model code ran meanwhile.  A step time-out abandons the overrunning           *)
+(* computation by design, in which case nothing is required.                                     *)
+Balanced(pair) == pair[1] = pair[2]
+
+TDrop ==
+    /\ IsEvent("drop")
+    /\ Booted /\ phase = "idle"
+    /\ \/ Wild("drop")
+       \/ Ev.abandoned
+       \/ /\ Balanced(Ev.models) /\ Ev.models[1] = Cardinality(Models)
+          /\ Balanced(Ev.payloads) /\ Balanced(Ev.handlers)
+          /\ Balanced(Ev.threads)
+          /\ Ev.late = 0
+    /\ boot' = "dropped"
+    /\ UNCHANGED <<vars, inited, syncSilent, mt>>
 
 TEnd ==
     /\ IsEvent("end")
-    /\ Booted /\ phase = "idle"
+    /\ boot = "dropped"
     /\ boot' = "ended"
-    /\ UNCHANGED <<vars, inited, syncSilent>>
+    /\ UNCHANGED <<vars, inited, syncSilent, mt>>
 
 Silent ==
     /\ Booted
@@ -154,14 +176,14 @@ Silent ==
        \* (it is where the key is re-read); other takes are fused with the
        \* logged start of the handler, which keeps the search linear
        \/ \E m \in Models, s \in Senders :
-             /\ mbox[m][s] # <<>> /\ Head(mbox[m][s]).key # 0
+             /\ mt /\ mbox[m][s] # <<>> /\ Head(mbox[m][s]).key # 0
              /\ HTake(m, s)
        \/ syncSilent /\ DoSync(0)
        \/ Quiesce
        \/ \E e \in pendErr : Abort(e)
-    /\ UNCHANGED <<l, boot, inited, syncSilent>>
+    /\ UNCHANGED <<l, boot, inited, syncSilent, mt>>
 
-TraceNext == Reset \/ InitSync \/ ModelInit \/ TCmd \/ TSync \/ TBegin \/ TOp \/ TRet \/ TEnd \/ Silent
+TraceNext == Reset \/ InitSync \/ ModelInit \/ TCmd \/ TSync \/ TBegin \/ TOp \/ TRet \/ TDrop \/ TEnd \/ Silent
 
 TraceSpec == TraceInit /\ [][TraceNext]_tvars
 
